@@ -5,7 +5,7 @@ From Coq Require Import List Bool NArith Arith.
 Import ListNotations.
 From Verif Require Import PsbtModel PsbtCasesDefs PsbtCasesGen.
 
-Definition ok_all : bool := forallb (case_ok descs sigflags mall_false mall_true keep_unknown) all_cases.
+Definition ok_all : bool := forallb (case_ok descs sigflags mall_false mall_true) all_cases.
 
 Eval vm_compute in (length all_cases, ok_all).
 
